@@ -245,7 +245,7 @@ class Conv:
         leaf = T("in", 0)
         for o in outs:
             for atom, _ in o.pc:
-                if isinstance(atom, T) and atom[0] in ("binop", "cast", "not") and mentions(atom, leaf):
+                if isinstance(atom, T) and atom[0] in ("binop", "cast", "not", "in") and mentions(atom, leaf):
                     return True
         return False
 
